@@ -145,3 +145,31 @@ pub fn reuse_spec_change() -> String {
         reused.2, fresh.2, reused.3, if reused.2 == fresh.2 && reused.0 == fresh.0 && reused.3 == SpecId::CANCUN { "" } else { " MISMATCH" });
     out
 }
+
+// ---------------------------------------------------------------- C20: State::block_hash answers like the database it wraps, whatever was asked (and pruned) before
+pub fn block_hash_window() -> String {
+    use revm::db::State;
+    use revm::{Database, DatabaseRef};
+    let mut out = String::new();
+    let sequences: [(&str, Vec<u64>); 5] = [
+        ("ascending", vec![1, 2, 258, 259, 600]),
+        ("older than the window after a newer one", vec![1000, 700, 1000 - 257, 1000 - 256, 1000 - 255]),
+        ("same block twice around a prune", vec![10, 300, 10, 300]),
+        ("descending", vec![900, 600, 300, 1]),
+        ("window edge", vec![256, 0, 257, 1, 513, 257]),
+    ];
+    for (name, seq) in sequences {
+        let mut st = State::builder().build();
+        let mut bad = Vec::new();
+        for n in &seq {
+            let got = st.block_hash(*n).expect("no db error");
+            let want = EmptyDB::default().block_hash_ref(*n).unwrap();
+            if got != want {
+                bad.push(*n);
+            }
+        }
+        let j = |v: &Vec<u64>| v.iter().map(|x| x.to_string()).collect::<Vec<_>>().join(",");
+        out += &format!("[block_hash_window {} queries={} wrong_answers={}{}] ", name, j(&seq), j(&bad), if bad.is_empty() { "" } else { " MISMATCH" });
+    }
+    out
+}
